@@ -17,21 +17,21 @@ Debug == "VERIF_DEBUG" \in DOMAIN IOEnv
 
 VARIABLES input, cb, pos, look, lookStack, stateStack, symStack, state, errcount, errok, pc,
           phase, shifted, dropped, ncb,
-          tid, l, flags, done
+          tid, l, flags, done, aux
 
 D == INSTANCE SlyDriver WITH
        Prods <- Data.prods, Action <- Data.action, Goto <- Data.goto, Defaulted <- Data.defaulted,
        RaisingProds <- {}
 
 tvars == <<input, cb, pos, look, lookStack, stateStack, symStack, state, errcount, errok, pc,
-           phase, shifted, dropped, ncb, tid, l, flags, done>>
+           phase, shifted, dropped, ncb, tid, l, flags, done, aux>>
 
 Tr == Traces[tid]
 Ev == Tr.events[l]
 
 TraceInit ==
   /\ tid \in 1..Len(Traces)
-  /\ l = 1 /\ flags = {} /\ done = FALSE
+  /\ l = 1 /\ flags = {} /\ done = FALSE /\ aux = {}
   /\ D!Init(Traces[tid].input, Traces[tid].cb)
 
 Is(e) == l <= Len(Tr.events) /\ Ev.e = e
@@ -102,14 +102,18 @@ Step ==
   /\ l' = l + 1 /\ Monitors
   /\ (Debug => PrintT(<<"AT", tid, l>>))
   /\ UNCHANGED <<tid, done>>
+  \* C19: at the first reported error, which of the suggested token types cannot be shifted here?
+  /\ aux' = IF Ev.e = "error_cb_begin" /\ ncb = 0 /\ "sugg" \in DOMAIN Tr
+            THEN {Tr.sugg[i] : i \in {j \in 1..Len(Tr.sugg) : ~D!ShiftableFrom(stateStack, Tr.sugg[j])}}
+            ELSE aux
 
 Finish ==
   /\ ~done /\ l = Len(Tr.events) + 1
   /\ phase = Tr.outcome
   /\ done' = TRUE
-  /\ PrintT(<<"ACC", tid, phase, flags>>)
+  /\ PrintT(<<"ACC", tid, phase, flags, aux>>)
   /\ UNCHANGED <<input, cb, pos, look, lookStack, stateStack, symStack, state, errcount, errok, pc,
-                 phase, shifted, dropped, ncb, tid, l, flags>>
+                 phase, shifted, dropped, ncb, tid, l, flags, aux>>
 
 TraceNext == Step \/ Finish
 TraceSpec == TraceInit /\ [][TraceNext]_tvars
